@@ -90,6 +90,39 @@ func genC10(r *rng, thorough bool) {
 			gen("pctidx " + strconv.Itoa(p) + " " + strconv.Itoa(k))
 		}
 	}
+	// aggregating verbs that have no Lean model: swept for "a result or an error, never a panic" on numeric
+	// streams in which fields come and go from record to record (a field first seen late in its group, ...)
+	for i := 0; i < n/2+20; i++ {
+		var rs []record
+		m := r.intn(9)
+		for j := 0; j < m; j++ {
+			var rec record
+			if !r.chance(1, 4) {
+				rec = append(rec, field{"a", r.pick([]string{"pan", "eks", "pan"})})
+			}
+			if !r.chance(1, 3) {
+				rec = append(rec, field{"x", r.pick([]string{"1", "2", "3", "-4", "0", "2.5", "7"})})
+			}
+			if !r.chance(1, 3) {
+				rec = append(rec, field{"y", r.pick([]string{"5", "6", "1.5", "0", "100"})})
+			}
+			rs = append(rs, rec)
+		}
+		g := r.pick([]string{"a", "nosuch"})
+		for _, argv := range [][]string{
+			{"fraction", "-f", "x,y"}, {"fraction", "-f", "x,y", "-g", g}, {"fraction", "-f", "y,x", "-c"}, {"fraction", "-f", "x,y", "-p", "-g", g},
+			{"top", "-f", "x,y"}, {"top", "-n", "2", "-f", "x", "-g", g, "-a"}, {"top", "-f", "y", "--min", "-o", "best"},
+			{"step", "-a", "shift,shift_lag,shift_lead,delta,ratio,counter,count,rsum,rprod", "-f", "x,y"}, {"step", "-a", "ewma", "-d", "0.1,0.9", "-f", "x", "-g", g},
+			{"step", "-a", "slwin_2_2,from-first", "-f", "y"}, {"histogram", "-f", "x,y", "--lo", "0", "--hi", "10", "--nbins", "3"},
+			{"histogram", "-f", "x,y", "--auto", "--nbins", "2"}, {"most-frequent", "-f", g}, {"least-frequent", "-f", "a", "-b"},
+			{"stats2", "-a", "linreg-ols,r2,cov,corr", "-f", "x,y"}, {"stats2", "-a", "linreg-pca", "-f", "x,y", "-g", g}, {"stats2", "--fit", "-a", "linreg-ols", "-f", "x,y"},
+			{"count-similar", "-g", g}, {"sec2gmt", "x,y"}, {"sec2gmtdate", "x"}, {"fill-empty"}, {"unsparsify"}, {"unsparsify", "-f", "x,y,z"},
+			{"stats1", "-a", "var,meaneb,skewness,kurtosis,first,last", "-f", "x,y", "-g", g}, {"stats1", "-a", "p50,iqr,lof,uof", "-i", "-f", "x,y"},
+			{"merge-fields", "-a", "sum,count,var", "-f", "x,y", "-o", "out"}, {"seqgen", "--start", "1", "--stop", "5", "then", "fraction", "-f", "i"},
+		} {
+			gen("verbs " + joinFlags(argv) + " " + encodeRecords(rs))
+		}
+	}
 	gl := []string{"a", "b", "a,b", "nosuch", "b,a"}
 	accs := []string{"count", "sum", "mean", "min", "max", "mode", "antimode", "distinct_count", "null_count", "minlen", "maxlen", "median", "p10", "p25", "p75", "p90", "p0", "p100", "p50"}
 	for i := 0; i < n; i++ {
